@@ -41,6 +41,10 @@ int __real_close(int fd);
 
 static const char *root = "";
 static int in_req = 0, http_fd = -1, peer_fd = -1, nreads = 0, real_io = 0;
+/* send-side mode (op sreq): the peer does not read; select() for writability is scripted, time is virtual */
+static int send_mode = 0; static char send_dec[64]; static int send_pos = 0;
+static long vwait_total = 0, vwait_run = 0, vslice = 0, sent_total = 0, send_maxwait = 0; static int send_opened = 0;
+int __real_select(int nfds, fd_set *r, fd_set *w, fd_set *e, struct timeval *tv);
 /* scripted segments */
 typedef struct { int kind; unsigned char *p; size_t n, off; } segm;   /* kind 0 data, 1 EOF, 2 ERR */
 static segm segs[256]; static int nseg = 0, curseg = 0;
@@ -73,7 +77,29 @@ ssize_t __wrap_read(int fd, void *buf, size_t count) {
   }
   return __real_read(fd, buf, count);
 }
+int __wrap_select(int nfds, fd_set *r, fd_set *w, fd_set *e, struct timeval *tv) {
+  if (in_req && send_mode && w && !r && http_fd >= 0 && FD_ISSET(http_fd, w) && tv) {
+    int n = (int)strlen(send_dec); char d = n ? send_dec[send_pos < n ? send_pos : n - 1] : 't';
+    long ms = tv->tv_sec * 1000 + tv->tv_usec / 1000;
+    if (send_pos < n) send_pos++;
+    vslice = ms;
+    if (d == 'r') { drain_peer(); vwait_run = 0; return 1; }
+    /* time-out: virtual time advances by the full slice; as on Linux the timeval is left at zero */
+    vwait_total += ms; vwait_run += ms;
+    tv->tv_sec = 0; tv->tv_usec = 0; FD_ZERO(w);
+    if (vwait_run > send_maxwait + 20 * (ms > 0 ? ms : 1000)) {
+      printf("stall\nslice %ld\nvwait %ld\n", vslice, vwait_total); fflush(stdout); _exit(0);
+    }
+    return 0;
+  }
+  return __real_select(nfds, r, w, e, tv);
+}
 ssize_t __wrap_write(int fd, const void *buf, size_t count) {
+  if (in_req && fd == http_fd && send_mode) {
+    ssize_t r = __real_write(fd, buf, count);
+    if (r > 0) sent_total += r;
+    return r;
+  }
   if (in_req && fd == http_fd) {
     ssize_t r;
     drain_peer();
@@ -92,6 +118,7 @@ static void log_open(const char *path, int ok) {
 FILE *__wrap_fopen(const char *path, const char *mode) {
   FILE *f = __real_fopen(path, mode);
   if (in_req) log_open(path, f != NULL);
+  if (in_req && send_mode && f) send_opened = 1;
   return f;
 }
 int __wrap_open(const char *path, int flags, ...) {
@@ -201,6 +228,38 @@ static void __attribute__((noinline)) poison_stack(void) {
   __asm__ volatile("" : : "r"(area) : "memory");
 }
 
+/* sreq <maxwait-ms> <decisions t/r, last repeats> <hex>: a client that requests a large file and does not read
+ * (small socket buffers); select() for writability follows the decisions, time is virtual */
+extern int rfbMaxClientWait;
+static void do_sreq(char *line) {
+  char *sv = NULL, *mw, *dec, *h; int sv2[2], sz = 4096, oldwait = rfbMaxClientWait;
+  strtok_r(line, " \n", &sv); mw = strtok_r(NULL, " \n", &sv); dec = strtok_r(NULL, " \n", &sv); h = strtok_r(NULL, " \n", &sv);
+  puts("sreq"); fflush(stdout);
+  if (!screen || !mw || !dec || !h) { puts("?? sreq"); return; }
+  if (screen->httpSock != RFB_INVALID_SOCKET) { __real_close(screen->httpSock); screen->httpSock = RFB_INVALID_SOCKET; }
+  if (peer_fd >= 0) { __real_close(peer_fd); peer_fd = -1; }
+  socketpair(AF_UNIX, SOCK_STREAM, 0, sv2);
+  setsockopt(sv2[0], SOL_SOCKET, SO_SNDBUF, &sz, sizeof sz);
+  setsockopt(sv2[1], SOL_SOCKET, SO_RCVBUF, &sz, sizeof sz);
+  fcntl(sv2[0], F_SETFL, fcntl(sv2[0], F_GETFL) | O_NONBLOCK);
+  fcntl(sv2[1], F_SETFL, fcntl(sv2[1], F_GETFL) | O_NONBLOCK);
+  http_fd = sv2[0]; peer_fd = sv2[1]; screen->httpSock = http_fd;
+  __real_write(peer_fd, "RFB ", 4);
+  nseg = 1; curseg = 0; segs[0].kind = 0; segs[0].off = 0; segs[0].n = unhex(h, &segs[0].p);
+  send_maxwait = atol(mw); rfbMaxClientWait = (int)send_maxwait;
+  strncpy(send_dec, dec, sizeof send_dec - 1); send_pos = 0;
+  vwait_total = vwait_run = vslice = sent_total = 0; nreads = 0; npend = 0; send_opened = 0;
+  send_mode = 1; in_req = 1;
+  rfbHttpCheckFds(screen);
+  in_req = 0; send_mode = 0;
+  rfbMaxClientWait = oldwait;
+  printf("status %s\n", screen->httpSock == RFB_INVALID_SOCKET ? "done" : "again");
+  if (send_opened) printf("slice %ld\nvwait %ld\ncomplete %d\n", vslice, vwait_total, sent_total >= 70000 ? 1 : 0);
+  fflush(stdout);
+  drain_peer();
+  free(segs[0].p);
+}
+
 /* the request comes in through a real listener: both accept branches of rfbHttpCheckFds */
 static void do_lreq(char *line) {
   char *sv = NULL, *fam, *h; unsigned char *d; size_t n; int six, l4, l6 = -1, c; socklen_t sl;
@@ -253,6 +312,7 @@ static void run_case(char **lines, int n) {
   for (i = 0; i < n; i++) {
     if (!strncmp(lines[i], "cfg ", 4)) do_cfg(lines[i]);
     else if (!strncmp(lines[i], "lreq", 4)) do_lreq(lines[i]);
+    else if (!strncmp(lines[i], "sreq", 4)) do_sreq(lines[i]);
     else if (!strncmp(lines[i], "req", 3)) do_req(lines[i]);
     else if (!strncmp(lines[i], "atoi ", 5)) { unsigned char *d; char *e = strchr(lines[i] + 5, '\n'); if (e) *e = 0; unhex(lines[i] + 5, &d); printf("atoi %d\n", atoi((char *)d)); fflush(stdout); }
     else if (!strncmp(lines[i], "strs ", 5)) { }
